@@ -165,14 +165,15 @@ let () =
     let (ctx, dt, op, den, rest) = args_common a in
     let (shape, xs, sp) = arr dt den (List.hd rest) in
     let f = unary_op dt op in
-    let spec = show_f dt shape (spec_unary f xs) in
+    let scalar = spec_unary f xs in
+    let spec = show_f dt shape scalar in
     let n = lanes ctx dt in
     if ctx = "none" then { model = spec; spec; dom = true } else
     let col = is_col rest 1 in
-    let mem = if col then (match shape with [r; c] -> colmajor2 0.0 (i2n r) (i2n c) xs | _ -> failwith "col needs 2-d") else xs in
-    let m = show_option dt shape (eval_unary_gen (i2n n) f mem xs (zeros (List.length xs))) in
-    (* theorem C12_unary_eq_map: row-major operand; the lane operation is f (not so for special values) *)
-    { model = m; spec; dom = not col && not sp });
+    let zs = zeros (List.length xs) in
+    let m = show_outcome dt shape zs (eval_unary_top (i2n n) (not col) f xs zs scalar) in
+    (* C12_unary_eq_map (row-major) / C12_not_row_major_falls_back; the lane operation is f (not so for special values) *)
+    { model = m; spec; dom = not sp });
   register "binary" (fun a ->
     let (ctx, dt, op, den, rest) = args_common a in
     let (ls, lx, _) = arr dt den (List.nth rest 0) and (rs, rx, _) = arr dt den (List.nth rest 1) in
@@ -188,27 +189,23 @@ let () =
       let col = is_col rest 2 in
       let size = prod os in
       let zs = zeros size in
-      let m =
-        if col then begin
-          let lmem = (match ls with [r; c] -> colmajor2 0.0 (i2n r) (i2n c) lx | _ -> failwith "col needs 2-d") in
-          if ls = rs then show_option dt os (eval_binary_same_gen n f (i2n size) lmem rx lx rx zs)
-          else if List.length ls = 2 && List.length rs = 2
-          then show_option dt os (eval_binary_2d n f (pair_of_list os) (pair_of_list ls) (pair_of_list rs) lmem rx zs)
-          else spec end
-        else show_outcome dt os zs (eval_binary_top n f (nat os) (nat ls) (nat rs) lx rx zs scalar) in
-      (* same shape: C12_binary_same_eq; both 2-d: C12_binary_2d_eq_on_domain; anything else: C12_binary_refused_falls_back *)
-      let dom = not col && (ls = rs || not (List.length ls = 2 && List.length rs = 2)
-                            || b2d_dom (lanes ctx dt) (two os) (two ls) (two rs)) in
+      let m = show_outcome dt os zs (eval_binary_top n f (not col) (nat os) (nat ls) (nat rs) lx rx zs scalar) in
+      (* same shape: C12_binary_same_eq; both 2-d: C12_binary_2d_eq_on_domain; other patterns: C12_binary_refused_falls_back;
+         a column-major operand: C12_not_row_major_falls_back *)
+      let dom = col || ls = rs || not (List.length ls = 2 && List.length rs = 2)
+                || b2d_dom (lanes ctx dt) (two os) (two ls) (two rs) in
       { model = m; spec; dom });
   register "outer" (fun a ->
     let (ctx, dt, op, den, rest) = args_common a in
     let (ls, lx, _) = arr dt den (List.nth rest 0) and (rs, rx, _) = arr dt den (List.nth rest 1) in
     let f = binary_op dt op in
     let os = ls @ rs in
-    let spec = show_f dt os (spec_outer f lx rx) in
+    let scalar = spec_outer f lx rx in
+    let spec = show_f dt os scalar in
     if ctx = "none" then { model = spec; spec; dom = true } else
     let n = i2n (lanes ctx dt) in
-    let m = show_option dt os (eval_outer n f (List.map i2n ls) (List.map i2n rs) lx rx (zeros (prod os))) in
+    let zs = zeros (prod os) in
+    let m = show_outcome dt os zs (eval_outer_top n f true (List.map i2n ls) (List.map i2n rs) lx rx zs scalar) in
     { model = m; spec; dom = false });
   register "reduce" (fun a ->
     let (ctx, dt, op, den, rest) = args_common a in
@@ -228,7 +225,7 @@ let () =
         let spec = if exact then show_f dt oshape scalar else "unspecified" in
         if ctx = "none" then { model = spec; spec; dom = true } else
         let m = show_outcome dt oshape [0.0]
-                  (eval_reduction_top (i2n n) f 0.0 ident (List.map i2n shape) (List.map (fun _ -> i2n 1) shape) None init xs scalar) in
+                  (eval_reduction_top (i2n n) f 0.0 ident true (List.map i2n shape) (List.map (fun _ -> i2n 1) shape) None init xs scalar) in
         (* C12_reduce_full_on_domain (initial included) *)
         { model = m; spec; dom = exact }
     | Some ax ->
@@ -243,7 +240,7 @@ let () =
         if ctx = "none" then { model = spec; spec; dom = true } else
         let horizontal = (ax' = dim - 1) in
         let m = show_outcome dt oshape (zeros (prod oshape))
-                  (eval_reduction_top (i2n n) f 0.0 ident (List.map i2n shape) (List.map i2n outk)
+                  (eval_reduction_top (i2n n) f 0.0 ident true (List.map i2n shape) (List.map i2n outk)
                      (Some (ax < 0, i2n (abs ax))) init xs scalar) in
         let full = prod oshape = 1 in
         (* C12_reduce_full_on_domain / C12_reduce_horizontal_core (initial included); the vertical arm is proved for
